@@ -512,6 +512,11 @@ func poolApply(w0 bfs.World, o bfs.Op, check bool) (v *bfs.Violation) {
 		} else {
 			known, err = n.CM.AddPoolTransactions(v1)
 		}
+		// bookkeeping, read before any query re-validates the pool: the recorded weight (which decides evictions at
+		// the next revalidation) is the weight of what is pooled
+		if rec, act, _ := n.CM.VerifPoolWeight(); rec != act {
+			return &bfs.Violation{Signature: "c14:pool-weight-out-of-sync", What: fmt.Sprintf("%s: right after %v (known=%v err=%v) the pool records weight %d but holds transactions weighing %d: a rejected set leaves its weight behind and the next revalidation evicts by it", u.Describe(), o, known, err, rec, act)}
+		}
 		afterIDs, _, _ := poolIDs(n)
 		if err == nil && !known {
 			for i, t := range s.V1 {
